@@ -107,6 +107,11 @@ def rule_E3(tree: Tree) -> RuleResult:
                     shb_cls = (dotted(c.func) or "").split(".")[-1]
                 if isinstance(c, ast.Call) and (dotted(c.func) or "").endswith("read"):
                     swapped = any(isinstance(x, ast.Call) and (dotted(x.func) or "").endswith("_swap32b") for x in ast.walk(c))
+                    # the rest of the block is (total length field of the header just unpacked) − (header length): `shb.len`, byte-swapped in the LE arm
+                    # (the header was unpacked big-endian); `shb._len` is dpkt's private name of a different quantity
+                    want_len = "dpng._swap32b(shb.len) - shb.__hdr_len__" if le else "shb.len - shb.__hdr_len__"
+                    if not c.args or src(c.args[0]) != want_len:
+                        swapped = None
         good = flag is le and shb_cls == ("SectionHeaderBlockLE" if le else "SectionHeaderBlock") and swapped is le
         detail.append(f"{magic}: flag={flag} class={shb_cls} length-swapped={swapped}")
         ok = ok and good
